@@ -8,21 +8,81 @@ FUN = ['FIX8::Session::process', 'Session::enforce', 'Session::sequence_check', 
        'fast_atoi<unsigned>', 'exception constructors InvalidMsgSequence/MsgSequenceTooLow/BadSendingTime/BadCompidId/InvalidMessage/InvalidVersion/MissingMandatoryField/BadCheckSum']
 
 def run(ctx):
-    kf = known_findings('C19'); defs = kf_defines(kf)
+    kf, defs = sessin.kf_defs('C19')
     info = sessin.build(ctx)
+    sessin.build(ctx, 'sess_scan.c', real_atoi=True)
     ctx.assumptions += sessin.ASSUME
     common = dict(functions=FUN, stubs=sessin.STUBS)
+    ctx.add(Harness('C19_seq', VERIF + '/harness/C19_seq.c', defines=defs + ['VF_MAXCOPY=40'], unwind=12, unwindset=sessin.US, timeout=900,
+                    bounds='one sequence_check() call; every established state; expected number 1..2^32-1 and MsgSeqNum 0..2^32-1 (whole unsigned range); PossDupFlag absent/N/Y; '
+                           'SendingTime/OrigSendingTime arbitrary instants', desc='sequence clause over the real Session::sequence_check', **common))
+    lens = [0x2222, 0x1221] if ctx.tier == 'quick' else [a << 12 | b << 8 | c << 4 | d for a in (1, 2) for b in (1, 2) for c in (1, 2) for d in (1, 2)]
     for tlen in (1, 2):
-        ctx.add(Harness('C19_step_t%d' % tlen, VERIF + '/harness/C19_step.c', defines=defs + ['TLEN=%d' % tlen, 'VF_MAXCOPY=40'], unwind=12, unwindset=sessin.US, timeout=900, mem_gb=12,
-                        bounds='one process() step; pre-state: any established state except the transient st_logon_received, expected/next-send in 1..9999999, enforce_compids/silent_disconnect/reliable/active arbitrary, '
-                               'own and inbound CompIDs 1-2 arbitrary bytes; message: type %s, MsgSeqNum 0..9999999 (7 digits through the real scan + fast_atoi), PossDupFlag absent/N/Y, '
-                               'SendingTime/OrigSendingTime arbitrary, NewSeqNo/BeginSeqNo/EndSeqNo arbitrary, decoding outcome in {ok, null, 5 failure kinds}' %
-                               ('1 character other than A (Logon: C23) and 3 (Reject hook)' if tlen == 1 else '2 arbitrary characters (application message)'),
+        for ln in (lens if tlen == 2 else lens[:1] if ctx.tier == 'quick' else lens):
+            ctx.add(Harness('C19_step_t%d_%04x' % (tlen, ln), VERIF + '/harness/C19_step.c', defines=defs + ['TLEN=%d' % tlen, 'LENS=0x%04x' % ln, 'VF_MAXCOPY=40'], unwind=12, unwindset=sessin.US, timeout=900, mem_gb=12,
+                        bounds='one process() step; pre-state: any established state except the transient st_logon_received, expected and next-send numbers 1..2^32-1 (whole range), enforce_compids/silent_disconnect/reliable/active arbitrary, '
+                               'own and inbound CompIDs of lengths 0x%04x with arbitrary bytes; message: type %s, MsgSeqNum 0..2^32-1, PossDupFlag absent/N/Y, '
+                               'SendingTime/OrigSendingTime arbitrary, NewSeqNo/BeginSeqNo/EndSeqNo 0..9999999, decoding outcome in {ok, 5 failure kinds}' %
+                               (ln, '1 character other than A (Logon: C23) and 3 (Reject hook)' if tlen == 1 else '2 arbitrary characters (application message)'),
                         desc='inductive step of the C19 statement over the real Session::process', **common))
+    ctx.add(Harness('C19_step_null', VERIF + '/harness/C19_step.c', defines=defs + ['TLEN=2', 'FACTORY_NULL=1', 'VF_MAXCOPY=40'], unwind=12, unwindset=sessin.US, timeout=900,
+                    bounds='as C19_step_t2 with Message::factory returning null (no message object)', desc='factory returns null: nothing delivered', **common))
+    ctx.add(Harness('C19_scan', VERIF + '/harness/C19_scan.c', defines=defs + ['VF_MAXCOPY=40'], unwind=12, unwindset=sessin.US + ['_ZN4FIX89fast_atoiIjEET_PKcc.0:4'], timeout=900,
+                    functions=FUN + ['header scan from.find("34=") + fast_atoi<unsigned> on real bytes'], stubs=[s for s in sessin.STUBS if not s.startswith('fast_atoi')],
+                    bounds='raw message 8=F|49=<4 arbitrary non-SOH bytes>|34=<d>| with d in 1..9, continuous session expecting d, CompID enforcement off',
+                    desc='MsgSeqNum is taken from the real tag 34, not from header values that contain the text "34="'))
     ctx.solve(jobs=4)
     ctx.handle_failures(replay, kf)
     announce_known(ctx, kf, replay)
     return ctx.finish()
 
 def replay(ctx, cx, h=None):
-    return False, 'replay driver not built yet'
+    c = cx.get('cx', cx)
+    if 'cx_v' in c:      # header scan on real bytes
+        v = ''.join(chr(int(b)) for b in c['cx_v']); d = int(c.get('cx_d', 53)) - 48
+        if any(ch in v for ch in ',|\x01') or not all(32 < ord(ch) < 127 for ch in v): v = '34=9'       # same class, printable witness
+        steps, raw = sessin.run_steps(ctx, ['init,role=I,sender=S,target=T,state=1,recv=%d,send=7,enforce=0,active=1' % d, 'msg,type=D,seq=%d,sci=%s,tci=S' % (d, v)])
+        if not steps: return False, 'no output: ' + raw
+        r = steps[-1]; bad = r['delivered'] != [d] or r['sent'] or r['recv'] != d + 1 or r['shutdown']
+        return bool(bad), 'native: SenderCompID value "%s" before 34=%d, expected %d -> delivered %s, sent %s, next expected %d' % (v, d, d, r['delivered'], [s['type'] for s in r['sent']], r['recv'])
+    lens = 0x2222
+    if h is not None:
+        for dfn in h.defines:
+            if dfn.startswith('LENS='): lens = int(dfn[5:], 16)
+    L = [lens >> 12 & 15, lens >> 8 & 15, lens >> 4 & 15, lens & 15]
+    if 'cx_sid_s' in c: own_s, own_t, msg_s, msg_t = sessin.compids(c, ['cx_sid_s', 'cx_sid_t', 'cx_msg_s', 'cx_msg_t'], L)
+    else: own_s, own_t, msg_s, msg_t = 'S', 'T', 'T', 'S'
+    state = int(c.get('cx_state', 1)); exp = int(c.get('cx_expected', 1)); seq = int(c.get('cx_seq', 1))
+    enforce = int(c.get('cx_enforce', 1)); silent = int(c.get('cx_silent', 0)); reliable = int(c.get('cx_reliable', 0)); active = int(c.get('cx_active', 1))
+    t0 = int(c.get('cx_type0', 68)); t1 = int(c.get('cx_type1', 0))
+    typ = chr(t0) if (not t1 and chr(t0) in '01245') else 'D'
+    has_pd = int(c.get('cx_has_pd', 0)); pd = 'Y' if c.get('cx_pd') else 'N'
+    has_ost = int(c.get('cx_has_ost', 0)); later = int(c.get('cx_ost', 0)) > int(c.get('cx_st', 0))
+    fail = {0: 0, 1: 1, 2: 2, 3: 1, 4: 4, 5: 0}[int(c.get('cx_decode_fail', 0))]
+    if int(c.get('cx_decode_fail', 0)) == 5 or c.get('cx_factory_null'): return False, 'abstract failure kind without a wire-level counterpart'
+    init = 'init,role=I,sender=%s,target=%s,state=%d,recv=%d,send=7,enforce=%d,silent=%d,reliable=%d,active=%d' % (own_s, own_t, state, exp, enforce, silent, reliable, active)
+    msg = 'msg,type=%s,seq=%d,sci=%s,tci=%s,pd=%s,st=100,ost=%s,fail=%d,trid=Q,begin=1,end=0,nsn=%d' % (typ, seq, msg_s, msg_t, pd if has_pd else '-', ('110' if later else '90') if has_ost else '-', fail, seq + 1)
+    steps, raw = sessin.run_steps(ctx, [init, msg])
+    if not steps: return False, 'no output: ' + raw
+    r = steps[-1]
+    logout = len([s for s in r['sent'] if s['type'] == '5']); resend = [s for s in r['sent'] if s['type'] == '2']; reject = len([s for s in r['sent'] if s['type'] == '3'])
+    stopped = r['shutdown'] or r['thrown']; ndel = len(r['delivered'])
+    compid_ok = msg_t == own_s and msg_s == own_t; compid_bad = enforce and not compid_ok
+    valid_dup = has_pd and pd == 'Y' and not (has_ost and later)
+    in_seq = seq == exp or (seq < exp and valid_dup)
+    is_app = typ == 'D'; seqreset = typ == '4'; decoded = fail == 0
+    bad = []
+    if r['thrown'] and not reliable: bad.append('exception escaped')
+    if ndel and not (decoded and is_app and in_seq and not compid_bad): bad.append('delivered out of sequence / with wrong CompIDs')
+    if decoded and not seqreset and not compid_bad and (active or not is_app):
+        if seq > exp:
+            if ndel: bad.append('delivered although above expected')
+            if state != 12 and not (len(resend) == 1 and int(resend[0].get('7', -1)) == exp): bad.append('no ResendRequest(%d) for MsgSeqNum %d above expected in state %d' % (exp, seq, state))
+        if seq < exp and not valid_dup:
+            if ndel or not stopped: bad.append('too-low message delivered or session not ended')
+            if logout != 1 and not silent: bad.append('no Logout for MsgSeqNum %d below expected %d without PossDup' % (seq, exp))
+    if decoded and compid_bad and not seqreset and (active or not is_app):
+        if ndel or not stopped: bad.append('wrong CompIDs: delivered or session not ended')
+        if logout != 1 and not silent: bad.append('no Logout for wrong CompIDs with enforcement on')
+    if fail in (1, 4) and (ndel or reject != 1 or stopped): bad.append('decoding failure not answered with exactly one Reject')
+    return bool(bad), 'native: %s %s => %s [%s]' % (init, msg, '; '.join(bad) or 'conforms', raw[-220:])
